@@ -136,6 +136,12 @@ class Env:
                 f.write(n)
         os.mkdir(j("dir_empty"))
         os.symlink(j("file_a"), j("link_a"))
+        # a symlinked directory whose parent is elsewhere: link_in/../file_q is deep/file_q, not ./file_q
+        os.makedirs(j("deep", "inner"))
+        for n, text in ((j("deep", "file_q"), "deep"), (j("file_q"), "top")):
+            with open(n, "w") as f:
+                f.write(text)
+        os.symlink(j("deep", "inner"), j("link_in"))
         with tarfile.open(j("t.tar"), "w") as t:
             t.add(j("file_a"), "p")
             t.add(j("dir_d", "x"), "q/r")
@@ -157,7 +163,7 @@ class Env:
 
 
 PATH_NAMES = ["file_a", "file_e", "file_m", "dir_d", "dir_empty", "link_a", "t.tar", "t1.tar",
-              "missing", "dir_d/x", "dir_d/../file_a", "file_bin"]
+              "missing", "dir_d/x", "dir_d/../file_a", "file_bin", "link_in/../file_q", "deep/file_q", "file_q"]
 
 
 def mkvalue(v, env):
@@ -170,6 +176,9 @@ def mkvalue(v, env):
     if kind == "dict":
         import copy
         return dkd(copy.deepcopy(v[1]))
+    if kind == "list" and len(v) > 2:
+        # sequences that are not lists and have no __contains__: `in`, len(), iteration and sorted() all work
+        return (GetItemSeq if v[2] == "seq" else IterSized)(list(v[1]))
     if kind in ("int", "str", "list", "dict", "lstr"):
         import copy
         return copy.deepcopy(v[1])
@@ -199,6 +208,48 @@ def mkvalue(v, env):
     if kind == "path":
         return env.path(v[1])
     raise ValueError(kind)
+
+
+class GetItemSeq:
+    """An old-style sequence: __getitem__ and __len__ only (iteration and `in` go through __getitem__)."""
+
+    def __init__(self, items):
+        self._items = items
+
+    def __getitem__(self, i):
+        return self._items[i]
+
+    def __len__(self):
+        return len(self._items)
+
+    def __eq__(self, other):
+        return type(other) is type(self) and other._items == self._items
+
+    __hash__ = None
+
+    def __repr__(self):
+        return "%s(%r)" % (type(self).__name__, self._items)
+
+
+class IterSized:
+    """Iterable and sized, but without __contains__ or __getitem__ (`in` falls back on iteration)."""
+
+    def __init__(self, items):
+        self._items = items
+
+    def __iter__(self):
+        return iter(self._items)
+
+    def __len__(self):
+        return len(self._items)
+
+    def __eq__(self, other):
+        return type(other) is type(self) and other._items == self._items
+
+    __hash__ = None
+
+    def __repr__(self):
+        return "%s(%r)" % (type(self).__name__, self._items)
 
 
 def dk(k):
@@ -496,7 +547,10 @@ def sem(e, v, env, raw=None):
     if op == "HasPermissions":
         return oct(os.stat(v).st_mode)[-4:] == e[1]
     if op == "SamePath":
-        return os.path.realpath(v) == os.path.realpath(env.path(e[1]))
+        other = env.path(e[1])
+        if os.path.exists(v) and os.path.exists(other):
+            return os.path.samefile(v, other)          # what the OS says, symlinked directories and '..' included
+        return os.path.realpath(v) == os.path.realpath(other)
     if op == "TarballContains":
         with tarfile.open(v) as t:
             return sorted(t.getnames()) == sorted(e[1])
@@ -551,7 +605,8 @@ def values_of(domain):
     if domain == "bytes":
         return [["bytes", x] for x in BYTES_POOL]
     if domain == "list":
-        return [["list", x] for x in LIST_POOL]
+        return [["list", x] for x in LIST_POOL] + [["list", x, f] for x in ([], [1, 2], [1, 1, 2], [7], [2, 1])
+                                                   for f in ("seq", "iter")]
     if domain == "dict":
         return ([["dict", x] for x in DICT_POOL] + [["dict", x, "counter"] for x in DICT_POOL[:6]]
                 + [["dict", x, "defaultdict"] for x in DICT_POOL[:6]])
@@ -629,6 +684,7 @@ def leaves(domain, rng=None):
     elif domain == "path":
         L = [["PathExists"], ["DirExists"], ["FileExists"], ["DirContains", ["x", "y"]],
              ["DirContains", []], ["DirContains", ["x"]], ["SamePath", "file_a"], ["SamePath", "dir_d/x"],
+             ["SamePath", "deep/file_q"], ["SamePath", "link_in/../file_q"], ["SamePath", "file_q"],
              ["Always"], ["Never"]]
     return L
 
@@ -697,7 +753,8 @@ def domain_values(expr_domain, expr):
         vals = values_of("path")
         if uses(expr, ("FileContains", "FileContainsM")):
             vals = [v for v in vals if v[1] in ("file_a", "file_e", "file_m", "link_a", "missing",
-                                                "dir_d/x", "dir_d/../file_a", "file_bin")]
+                                                "dir_d/x", "dir_d/../file_a", "file_bin", "link_in/../file_q",
+                                                "deep/file_q", "file_q")]
 
         def reads_file_first(e):
             # (which sub-matchers a combinator consults before one raises is not specified: the undecodable
